@@ -41,13 +41,22 @@ def strategy(tier):
 
 def run_case(case, ctx):
     H = nets.build(case["spec"])
+    D = nets.build(case["dspec"])
+    _evaluate(H, D, case, ctx)
+    # the same objects after a small in-place edit: every result is derived and compared again
+    e1, e2 = nets.small_edit(H), nets.small_edit(D)
+    if e1 is not None or e2 is not None:
+        ctx.event("re-evaluated-after-edit")
+        _evaluate(H, D, case, ctx)
+
+
+def _evaluate(H, D, case, ctx):
     nodes, edges = list(H.nodes), list(H.edges)
     mem = {e: set(m) for e, m in H.edges.members(dtype=dict).items()}
     n = len(nodes)
     C = ctx.check
     has_empty = any(not m for m in mem.values())
     # ---- directed bipartite graph
-    D = nets.build(case["dspec"])
     BG, nd, ed = xgi.to_bipartite_graph(D, index=True)
     dm = D.edges.dimembers(dtype=dict)
     want = {(v, e, "t") for e, (t, h) in dm.items() for v in t} | {(v, e, "h") for e, (t, h) in dm.items() for v in h}
@@ -148,3 +157,18 @@ def run_case(case, ctx):
                 C(imm <= g <= allp_, ("encapsulation-dag", "links", "empirical-sandwich"), lambda: "got %r immediate %r all %r" % (g, imm, allp_))
     nested = any(mem[a] < mem[b] or mem[b] < mem[a] for a, b in itertools.combinations(edges, 2))
     ctx.mark((len(comps) >= 2 or nested) and n >= 4)
+
+
+# --------------------------------------------------------------------------------------------
+# one network beyond the small scope: a hyperedge of 14 nodes (66+ triangles at a node of the projection)
+
+
+def _large(tier, seed, run):
+    big = list(range(14))
+    spec = {"cls": "H", "kind": "int", "nodes": [], "edges": [[None, big, {}], [None, big[:13] + [14], {}], [None, [0, 15], {}], [None, [15, 16, 17], {}]], "net": {}}
+    dspec = {"cls": "DH", "kind": "int", "nodes": [], "edges": [[None, big[:7], big[7:], {}], [None, [0], [14], {}]], "net": {}}
+    run({"spec": spec, "dspec": dspec})
+    return {"large_network_cases": 1, "large_network_note": "two overlapping hyperedges of 14 nodes on 18 nodes"}
+
+
+EXTRA = [_large]
